@@ -113,7 +113,7 @@ func checkConsumeAfterFullRead(p *Program, r *Result, rule string, fns []*ssa.Fu
 						stop = true // refilled
 						break
 					}
-					if consumesBuf(in, af, av) {
+					if consumesBuf(in, af, av) && !guardedByCount(in, cntV, af, av) {
 						offender = in
 						break
 					}
@@ -142,8 +142,6 @@ func checkConsumeAfterFullRead(p *Program, r *Result, rule string, fns []*ssa.Fu
 			switch {
 			case offender == nil:
 				r.held(rule, funcName(fn), construct, p.pos(call.Pos()), "the destination is consumed only on the path where the read returned a nil error")
-			case cntV != nil:
-				r.note(rule, funcName(fn), construct, p.pos(offender.Pos()), "consumed on a path where the error may be non-nil, but the byte count is used: not judged")
 			default:
 				r.violated(rule, funcName(fn), construct, p.pos(offender.Pos()),
 					"the buffer is consumed ("+offender.String()+") on a path where this read may have failed or stopped short (an end-of-file class error is tolerated or the error is not tested) and the byte count is not examined; "+
@@ -194,6 +192,46 @@ func consumesBuf(in ssa.Instruction, af string, av ssa.Value) bool {
 	case *ssa.UnOp:
 		if ia, ok := x.X.(*ssa.IndexAddr); ok && x.Op == token.MUL && sameBuf(af, av, ia.X) {
 			return true
+		}
+	}
+	return false
+}
+
+// guardedByCount: the consumer only looks at the bytes the read reported (a re-slice bounded by the count), or runs
+// under a test of the count.
+func guardedByCount(in ssa.Instruction, cnt ssa.Value, af string, av ssa.Value) bool {
+	if cnt == nil {
+		return false
+	}
+	fromCnt := func(v ssa.Value) bool {
+		v = stripConv(v)
+		if v == cnt {
+			return true
+		}
+		if phi, ok := v.(*ssa.Phi); ok {
+			for _, e := range phi.Edges {
+				if stripConv(e) == cnt {
+					return true
+				}
+			}
+		}
+		return false
+	}
+	var ops []*ssa.Value
+	for _, op := range in.Operands(ops) {
+		if op == nil || *op == nil {
+			continue
+		}
+		if sl, ok := (*op).(*ssa.Slice); ok && sameBuf(af, av, sl) && sl.High != nil && fromCnt(sl.High) {
+			return true
+		}
+	}
+	// the count was examined by a test that every path to the consumer has passed
+	for d := in.Block().Idom(); d != nil; d = d.Idom() {
+		if iff, ok := d.Instrs[len(d.Instrs)-1].(*ssa.If); ok {
+			if b, ok := iff.Cond.(*ssa.BinOp); ok && (fromCnt(b.X) || fromCnt(b.Y)) {
+				return true
+			}
 		}
 	}
 	return false
